@@ -2505,7 +2505,22 @@ class EdgeQLSourceGenerator(codegen.SourceGenerator):
             self._write_keywords(node.returning_typemod.to_edgeql(), '')
             self._ddl_visit_type_before_body(node.returning)
 
-        if node.commands:
+        # USING FUNCTION can come with a USING <code> clause, in a block
+        # only; the clause that comes last sets the language.
+        two_usings = bool(
+            node.code.from_function
+            and (node.nativecode or node.code.code)
+        )
+        function_last = two_usings and bool(
+            node.nativecode
+            and node.code.language is not qlast.Language.EdgeQL
+        )
+
+        def write_from_function() -> None:
+            self._write_keywords('USING SQL FUNCTION ')
+            self.visit(qlast.Constant.string(node.code.from_function))
+
+        if node.commands or two_usings:
             self.write(' {')
             self._block_ws(1)
             commands = self._ddl_clean_up_commands(node.commands)
@@ -2515,14 +2530,18 @@ class EdgeQLSourceGenerator(codegen.SourceGenerator):
             self.write(' ')
 
         had_using = True
-        if node.code.from_function:
-            from_clause = f'USING {node.code.language} FUNCTION '
-            self._write_keywords(from_clause)
-            self.visit(qlast.Constant.string(node.code.from_function))
+        if node.code.from_function and not function_last:
+            write_from_function()
+            if two_usings:
+                self.write(';')
+                self.new_lines = 1
+
+        if node.code.from_function and not two_usings:
+            pass
         elif node.code.from_expr:
             from_clause = f'USING {node.code.language} EXPRESSION'
             self._write_keywords(from_clause)
-        elif node.code.language is qlast.Language.EdgeQL:
+        elif node.code.language is qlast.Language.EdgeQL or function_last:
             if node.nativecode:
                 self._write_keywords('USING')
                 self.write(' (')
@@ -2546,7 +2565,12 @@ class EdgeQLSourceGenerator(codegen.SourceGenerator):
                 self.write(edgeql_quote.dollar_quote_literal(
                     node.code.code))
 
-        if node.commands:
+        if function_last:
+            self.write(';')
+            self.new_lines = 1
+            write_from_function()
+
+        if node.commands or two_usings:
             self._block_ws(-1)
             if had_using:
                 self.write(';')
